@@ -87,12 +87,23 @@ func genCase(t *rapid.T) Case {
 	return Case{Shape: shape, Stride: rapid.IntRange(2, 5).Draw(t, "stride"), Pts: pts, Thr: model.Of(thr)}
 }
 
+// flat lays the points out with the given stride. The extra ordinates are junk
+// that the function must ignore: huge values for even strides (a stride slip
+// then inflates distances), zeros or a copy of x for odd strides (a slip then
+// deflates distances and wrongly drops points).
 func flat(pts [][2]int64, stride int) []float64 {
 	out := make([]float64, 0, len(pts)*stride)
 	for i, p := range pts {
 		out = append(out, float64(p[0]), float64(p[1]))
 		for d := 2; d < stride; d++ {
-			out = append(out, float64((i*7+d)%13)*1e12-5e12)
+			switch {
+			case stride%2 == 0:
+				out = append(out, float64((i*7+d)%13)*1e12-5e12)
+			case d == 2:
+				out = append(out, 0)
+			default:
+				out = append(out, float64(p[0]))
+			}
 		}
 	}
 	return out
